@@ -226,7 +226,7 @@ theorem challengeFail (L : LiftS R P ok) {s : Sess} (hs : P s) (lact : HAct) :
   unfold Session.challengeFail
   split
   · exact L.outs hs (by intro x hx; simp at hx; rcases hx with hx | hx <;> subst hx <;> rfl)
-  · exact L.cons hs rfl (L.cons hs rfl (L.leaveHook hs 3 lact))
+  · exact L.cons hs rfl (L.cons hs rfl (L.lcThen hs (fun h => L.leaveHook h 3 lact) rfl rfl))
 
 theorem runCont (L : LiftS R P ok)
     (hInv : ∀ {s : Sess} (req : ReqId) (o : EOut), P s → R s (Session.invDone s req o).2 (Session.invDone s req o).1) {s : Sess} (hs : P s) (k : Cont) :
@@ -281,20 +281,23 @@ theorem onOpen (L : LiftS R P ok)
     (hInv : ∀ {s : Sess} (req : ReqId) (o : EOut), P s → R s (Session.invDone s req o).2 (Session.invDone s req o).1) {s : Sess} (hs : P s) (acts : List HAct) :
     R s (Session.onOpen s acts).2 (Session.onOpen s acts).1 := by
   unfold Session.onOpen
-  refine L.lcThen (s' := { s with transport := true }) hs (fun hs0 => ?_) rfl rfl
+  refine L.lcThen (s' := { s with transport := true, ended := false }) hs (fun hs0 => ?_) rfl rfl
   exact L.cons hs0 rfl (L.defer hInv hs0 _)
 
 theorem preSession (L : LiftS R P ok)
     (hInv : ∀ {s : Sess} (req : ReqId) (o : EOut), P s → R s (Session.invDone s req o).2 (Session.invDone s req o).1) {s : Sess} (hs : P s) (beh : List HAct) (m : InMsg) :
     R s (Session.preSession s beh m).2 (Session.preSession s beh m).1 := by
+  unfold Session.preSession
+  split
+  · exact L.out1 hs rfl
   cases m with
   | welcome sid =>
-    simp only [Session.preSession]
+    simp only [Session.preSessionOpen]
     have h1 := L.runHook hs .onWelcome 0 (beh.headD {}) (fun s => (s, [])) (fun h => L.refl h)
     exact L.trans h1 (L.defer hInv (L.post hs h1) _)
-  | abort => exact L.leaveHook hs 2 _
+  | abort => exact L.lcThen hs (fun h => L.leaveHook h 2 _) rfl rfl
   | challenge =>
-    simp only [Session.preSession]
+    simp only [Session.preSessionOpen]
     have h1 := L.runHook hs .onChallenge 0 (beh.headD {}) (fun s => (s, [])) (fun h => L.refl h)
     exact L.trans h1 (L.defer hInv (L.post hs h1) _)
   | goodbye => exact L.out1 hs rfl
@@ -345,8 +348,8 @@ theorem drain (L : LiftS R P ok)
 
 /-- the whole step function, given the established-session branch -/
 theorem goodbye (L : LiftS R P ok) {s : Sess} (hs : P s) (act : HAct) :
-    R s ((if s.goodbyeSent then [] else [SOut.send { typ := .goodbye }]) ++ (Session.leaveHook { s with sessionId := none } 0 act).2)
-      (Session.leaveHook { s with sessionId := none } 0 act).1 := by
+    R s ((if s.goodbyeSent then [] else [SOut.send { typ := .goodbye }]) ++ (Session.leaveHook { s with sessionId := none, ended := true } 0 act).2)
+      (Session.leaveHook { s with sessionId := none, ended := true } 0 act).1 := by
   have h1 : R s (if s.goodbyeSent then [] else [SOut.send { typ := .goodbye }]) s := by
     split
     · exact L.refl hs
@@ -515,16 +518,14 @@ theorem invDone (L : LiftX R P ok) {s : Sess} (hs : P s) (req : ReqId) (o : EOut
       · exact L.sendWithFallback hs0 req _ rfl
     · split
       · exact L.outs hs0 (by intro x hx; simp at hx; rcases hx with hx | hx <;> subst hx <;> rfl)
-      · split
-        · exact L.outs hs0 (by intro x hx; simp at hx; rcases hx with hx | hx <;> subst hx <;> rfl)
-        · exact L.cons hs0 rfl (L.sendWithFallback hs0 req _ rfl)
+      · exact L.cons hs0 rfl (L.sendWithFallback hs0 req _ rfl)
 
 theorem challengeFail (L : LiftX R P ok) {s : Sess} (hs : P s) (lact : HAct) :
     R s (Session.challengeFail s lact).2 (Session.challengeFail s lact).1 := by
   unfold Session.challengeFail
   split
   · exact L.outs hs (by intro x hx; simp at hx; rcases hx with hx | hx <;> subst hx <;> rfl)
-  · exact L.cons hs rfl (L.cons hs rfl (L.leaveHook hs 3 lact))
+  · exact L.cons hs rfl (L.cons hs rfl (L.lcThen hs (fun h => L.leaveHook h 3 lact) rfl))
 
 theorem runCont (L : LiftX R P ok) {s : Sess} (hs : P s) (k : Cont) :
     R s (Session.runCont s k).2 (Session.runCont s k).1 := by
@@ -585,19 +586,22 @@ theorem settleInv (L : LiftX R P ok) {s : Sess} (hs : P s) (req : ReqId) (o : EO
 theorem onOpen (L : LiftX R P ok) {s : Sess} (hs : P s) (acts : List HAct) :
     R s (Session.onOpen s acts).2 (Session.onOpen s acts).1 := by
   unfold Session.onOpen
-  refine L.lcThen (s' := { s with transport := true }) hs (fun hs0 => ?_) rfl
+  refine L.lcThen (s' := { s with transport := true, ended := false }) hs (fun hs0 => ?_) rfl
   exact L.cons hs0 rfl (L.defer hs0 _)
 
 theorem preSession (L : LiftX R P ok) {s : Sess} (hs : P s) (beh : List HAct) (m : InMsg) :
     R s (Session.preSession s beh m).2 (Session.preSession s beh m).1 := by
+  unfold Session.preSession
+  split
+  · exact L.out1 hs rfl
   cases m with
   | welcome sid =>
-    simp only [Session.preSession]
+    simp only [Session.preSessionOpen]
     have h1 := L.runHook hs .onWelcome 0 (beh.headD {}) (fun s => (s, [])) (fun h => L.refl h)
     exact L.trans h1 (L.defer (L.post hs h1) _)
-  | abort => exact L.leaveHook hs 2 _
+  | abort => exact L.lcThen hs (fun h => L.leaveHook h 2 _) rfl
   | challenge =>
-    simp only [Session.preSession]
+    simp only [Session.preSessionOpen]
     have h1 := L.runHook hs .onChallenge 0 (beh.headD {}) (fun s => (s, [])) (fun h => L.refl h)
     exact L.trans h1 (L.defer (L.post hs h1) _)
   | goodbye => exact L.out1 hs rfl
@@ -728,8 +732,8 @@ theorem step (L : LiftX R P ok)
 
 /-- the GOODBYE branch of an established session -/
 theorem goodbye (L : LiftX R P ok) {s : Sess} (hs : P s) (act : HAct) :
-    R s ((if s.goodbyeSent then [] else [SOut.send { typ := .goodbye }]) ++ (Session.leaveHook { s with sessionId := none } 0 act).2)
-      (Session.leaveHook { s with sessionId := none } 0 act).1 := by
+    R s ((if s.goodbyeSent then [] else [SOut.send { typ := .goodbye }]) ++ (Session.leaveHook { s with sessionId := none, ended := true } 0 act).2)
+      (Session.leaveHook { s with sessionId := none, ended := true } 0 act).1 := by
   have h1 : R s (if s.goodbyeSent then [] else [SOut.send { typ := .goodbye }]) s := by
     split
     · exact L.refl hs
